@@ -53,7 +53,7 @@ var replayers = map[string]func(*run, *fovc.Obligation, string) *replayResult{
 // from a small-model query (buffer length bounded) with get-value.
 func replayFcScanner(r *run, o *fovc.Obligation, model string) *replayResult {
 	fn := strings.TrimPrefix(o.Func, "main.")
-	if fn == "transpileOne" || fn == "transpileFiles" {
+	if fn == "transpileOne" || fn == "transpileFiles" || fn == "OnParseError" {
 		return replayDriver(r, o, model)
 	}
 	known := map[string]bool{"scanSpaceToken": true, "scanIdentifierToken": true, "scanIntImmToken": true, "scanStringLiteralToken": true, "scanRawStringLiteralToken": true,
